@@ -15,7 +15,7 @@ from ..seams import SimFile, StepClock, knobs
 PROP = "C12"
 LEVEL = "exploration"
 RUNS = {"quick": 6000, "thorough": 300000}
-TIME_CAP = {"quick": 300, "thorough": 1500}
+TIME_CAP = {"quick": 300, "thorough": 900}
 RULE = ("seeded sets of 1-3 source streams x 1-3 interleaved channels x width {1,2,4} x byte order per stream x frame counts (equal, "
         "unequal, 0, trailing partial frame) x block-size knob {1 frame .. 64 KiB}; EOF of each source lands at a seeded position "
         "relative to a block edge; equal-length scenarios are re-run under two more knobs and must give identical bytes; non-trivial = "
